@@ -577,3 +577,375 @@ static void hist_run (long item)
 }
 
 Family fam_hist = { "hist", "API-call histories vs reference model (C05 C06, oracles for C14 C17 C18 C20); --opt depth=N --opt reduced=0|1", hist_init, hist_count, hist_run, NULL, 60 };
+
+/* =====================================================================
+ * E-HIST / invalid-call alphabet (C07): from every lifecycle state reached
+ * by a valid prefix, issue one invalid call; it must be rejected, must not
+ * touch memory it does not own, and must leave everything observable as it was.
+ * ===================================================================== */
+#include <limits.h>
+static void observe_state (HState * S, SBuf * b)
+{
+	mpq_QSprob p = S->p; RefLP *M = S->M;
+	int n = mpq_QSget_colcount (p), m = mpq_QSget_rowcount (p);
+	char why[300];
+	if (qsx_conform (p, M, 1, why, sizeof why)) sb_printf (b, "NONCONFORM(%s)|", why); else sb_printf (b, "conform|");
+	QSbasis *B = mpq_QSget_basis (p);
+	if (!B) sb_printf (b, "nobasis|");
+	else { sb_printf (b, "basis %d %d ", B->nstruct, B->nrows); for (int j = 0; j < B->nstruct; j++) sb_printf (b, "%c", B->cstat[j]); sb_printf (b, "/"); for (int i = 0; i < B->nrows; i++) sb_printf (b, "%c", B->rstat[i]); sb_printf (b, "|"); mpq_QSfree_basis (B); }
+	int st = -1, rv = mpq_QSget_status (p, &st);
+	sb_printf (b, "status %d %d|", rv, st);
+	mpq_t v; mpq_init (v);
+	rv = mpq_QSget_objval (p, &v); sb_printf (b, "objval %d ", rv); if (!rv) sb_mpq (b, v); sb_printf (b, "|");
+	mpq_clear (v);
+	mpq_t *x = mpq_arr_new (n + 1), *pi = mpq_arr_new (m + 1), *rc = mpq_arr_new (n + 1), *sl = mpq_arr_new (m + 1);
+	rv = mpq_QSget_x_array (p, x); sb_printf (b, "x %d ", rv); if (!rv) for (int j = 0; j < n; j++) { sb_mpq (b, x[j]); sb_printf (b, " "); } sb_printf (b, "|");
+	rv = mpq_QSget_pi_array (p, pi); sb_printf (b, "pi %d ", rv); if (!rv) for (int i = 0; i < m; i++) { sb_mpq (b, pi[i]); sb_printf (b, " "); } sb_printf (b, "|");
+	rv = mpq_QSget_rc_array (p, rc); sb_printf (b, "rc %d ", rv); if (!rv) for (int j = 0; j < n; j++) { sb_mpq (b, rc[j]); sb_printf (b, " "); } sb_printf (b, "|");
+	rv = mpq_QSget_slack_array (p, sl); sb_printf (b, "slack %d ", rv); if (!rv) for (int i = 0; i < m; i++) { sb_mpq (b, sl[i]); sb_printf (b, " "); } sb_printf (b, "|");
+	mpq_arr_free (x, n + 1); mpq_arr_free (pi, m + 1); mpq_arr_free (rc, n + 1); mpq_arr_free (sl, m + 1);
+	static const int params[5] = { QS_PARAM_PRIMAL_PRICING, QS_PARAM_DUAL_PRICING, QS_PARAM_SIMPLEX_DISPLAY, QS_PARAM_SIMPLEX_MAX_ITERATIONS, QS_PARAM_SIMPLEX_SCALING };
+	for (int k = 0; k < 5; k++) { int val = -1; rv = mpq_QSget_param (p, params[k], &val); sb_printf (b, "param%d %d %d|", params[k], rv, val); }
+}
+
+enum {
+	IV_DELETE_ROW, IV_DELETE_ROWS, IV_CHANGE_SENSE_IDX, IV_CHANGE_SENSES_IDX, IV_CHANGE_RHS, IV_CHANGE_RANGE_IDX, IV_CHANGE_COEF_ROW, IV_GET_COEF_ROW,
+	IV_GET_ROWS_LIST, IV_GET_RANGED_ROWS_LIST, IV_BINV_ROW, IV_TABLEAU_ROW, IV_PIVOTIN_ROW,
+	IV_DELETE_COL, IV_DELETE_COLS, IV_CHANGE_OBJ, IV_CHANGE_BOUND_IDX, IV_CHANGE_BOUNDS_IDX, IV_GET_BOUND_IDX, IV_GET_BOUNDS_LIST, IV_GET_OBJ_LIST,
+	IV_GET_COLUMNS_LIST, IV_CHANGE_COEF_COL, IV_GET_COEF_COL, IV_ADD_ROW_BADCOL, IV_ADD_ROWS_BADCOL, IV_ADD_RANGED_ROW_BADCOL, IV_ADD_COL_BADROW, IV_ADD_COLS_BADROW, IV_PIVOTIN_COL,
+	IV_NAMES, IV_SELECTORS, IV_PARAMS, IV_BASIS, IV_FILES,
+	IV__COUNT
+};
+static const char *ivname[IV__COUNT] = {
+	"delete_row", "delete_rows", "change_sense(idx)", "change_senses(idx)", "change_rhscoef", "change_range(idx)", "change_coef(row)", "get_coef(row)",
+	"get_rows_list", "get_ranged_rows_list", "get_binv_row", "get_tableau_row", "opt_pivotin_row",
+	"delete_col", "delete_cols", "change_objcoef", "change_bound(idx)", "change_bounds(idx)", "get_bound(idx)", "get_bounds_list", "get_obj_list",
+	"get_columns_list", "change_coef(col)", "get_coef(col)", "add_row(bad col)", "add_rows(bad col)", "add_ranged_row(bad col)", "add_col(bad row)", "add_cols(bad row)", "opt_pivotin_col",
+	"names", "selectors", "params", "basis", "files"
+};
+/* number of variants per class */
+#define NROWBAD 5
+#define NCOLBAD 6
+#define NLISTBAD 6
+static int iv_nvar (int id)
+{
+	switch (id) {
+	case IV_DELETE_ROW: case IV_CHANGE_SENSE_IDX: case IV_CHANGE_RHS: case IV_CHANGE_RANGE_IDX: case IV_CHANGE_COEF_ROW: case IV_GET_COEF_ROW: case IV_BINV_ROW: case IV_TABLEAU_ROW: return NROWBAD;
+	case IV_DELETE_ROWS: case IV_CHANGE_SENSES_IDX: case IV_GET_ROWS_LIST: case IV_GET_RANGED_ROWS_LIST: case IV_PIVOTIN_ROW: return NLISTBAD;
+	case IV_DELETE_COL: case IV_CHANGE_OBJ: case IV_CHANGE_BOUND_IDX: case IV_GET_BOUND_IDX: case IV_CHANGE_COEF_COL: case IV_GET_COEF_COL: case IV_ADD_ROW_BADCOL: case IV_ADD_RANGED_ROW_BADCOL: return NCOLBAD;
+	case IV_ADD_COL_BADROW: return NROWBAD;
+	case IV_DELETE_COLS: case IV_CHANGE_BOUNDS_IDX: case IV_GET_BOUNDS_LIST: case IV_GET_OBJ_LIST: case IV_GET_COLUMNS_LIST: case IV_ADD_ROWS_BADCOL: case IV_ADD_COLS_BADROW: case IV_PIVOTIN_COL: return NLISTBAD;
+	case IV_NAMES: return 22;
+	case IV_SELECTORS: return 12;
+	case IV_PARAMS: return 13;
+	case IV_BASIS: return 14;
+	case IV_FILES: return 4;
+	}
+	return 0;
+}
+static int bad_row (int v, int n, int m) { switch (v) { case 0: return -1; case 1: return m; case 2: return m + 1; case 3: return n + m; default: return INT_MAX; } }
+static int bad_col (int v, int n, int m) { switch (v) { case 0: return -1; case 1: return n; case 2: return n + 1; case 3: return n + m - 1; case 4: return n + m; default: return INT_MAX; } }
+/* list variants: (position first/last) x (value -1, count, INT_MAX) */
+static void bad_list (int v, int count, int *list, int *len)
+{
+	int bad = (v % 3 == 0) ? -1 : (v % 3 == 1) ? count : INT_MAX;
+	if (count >= 1) { *len = 2; if (v / 3 == 0) { list[0] = bad; list[1] = 0; } else { list[0] = count - 1; list[1] = bad; } }
+	else { *len = 1; list[0] = bad; }
+}
+static void free_strs (char **s, int k) { if (!s) return; for (int i = 0; i < k; i++) if (s[i]) mpq_QSfree (s[i]); mpq_QSfree (s); }
+
+/* returns library rv (0 = accepted = violation); *skip = 1 if the variant does not denote an invalid call in this state;
+ * *lookup = 1 when the call is a pure look-up that may answer "index -1" instead of failing */
+static int do_invalid (HState * S, int id, int v, int *skip, int *lookup, char *what, size_t wl)
+{
+	mpq_QSprob p = S->p; RefLP *M = S->M;
+	int n = M->n, m = M->m, rv = 0, len = 0, list[4] = { 0, 0, 0, 0 }, ind[8] = { 0, 0, 0, 0, 0, 0, 0, 0 }, k;
+	mpq_t a, b, c; mpq_init (a); mpq_init (b); mpq_init (c); mpq_set_si (a, 1, 1); mpq_set_si (b, 0, 1); mpq_set (c, mpq_ILL_MAXDOUBLE);
+	mpq_t val[8]; for (int i = 0; i < 8; i++) { mpq_init (val[i]); mpq_set_si (val[i], 1, 1); }
+	mpq_t *out = mpq_arr_new (n + m + 4), *out2 = mpq_arr_new (n + m + 4);
+	*skip = 0; *lookup = 0;
+	int r = bad_row (v, n, m), j = bad_col (v, n, m);
+	snprintf (what, wl, "%s variant %d", ivname[id], v);
+	switch (id) {
+	case IV_DELETE_ROW: snprintf (what, wl, "mpq_QSdelete_row(p,%d) with %d rows", r, m); rv = mpq_QSdelete_row (p, r); break;
+	case IV_DELETE_ROWS: bad_list (v, m, list, &len); snprintf (what, wl, "mpq_QSdelete_rows(p,%d,{%d,%d}) with %d rows", len, list[0], len > 1 ? list[1] : 0, m); rv = mpq_QSdelete_rows (p, len, list); break;
+	case IV_CHANGE_SENSE_IDX: snprintf (what, wl, "mpq_QSchange_sense(p,%d,'L') with %d rows", r, m); rv = mpq_QSchange_sense (p, r, 'L'); break;
+	case IV_CHANGE_SENSES_IDX: { char ss[2] = { 'G', 'L' }; bad_list (v, m, list, &len); snprintf (what, wl, "mpq_QSchange_senses(p,%d,{%d,%d},..) with %d rows", len, list[0], len > 1 ? list[1] : 0, m); rv = mpq_QSchange_senses (p, len, list, ss); break; }
+	case IV_CHANGE_RHS: snprintf (what, wl, "mpq_QSchange_rhscoef(p,%d,1) with %d rows", r, m); rv = mpq_QSchange_rhscoef (p, r, a); break;
+	case IV_CHANGE_RANGE_IDX: snprintf (what, wl, "mpq_QSchange_range(p,%d,1) with %d rows", r, m); rv = mpq_QSchange_range (p, r, a); break;
+	case IV_CHANGE_COEF_ROW: if (!n) { *skip = 1; break; } snprintf (what, wl, "mpq_QSchange_coef(p,%d,0,1) with %d rows", r, m); rv = mpq_QSchange_coef (p, r, 0, a); break;
+	case IV_GET_COEF_ROW: if (!n) { *skip = 1; break; } snprintf (what, wl, "mpq_QSget_coef(p,%d,0,&v) with %d rows", r, m); rv = mpq_QSget_coef (p, r, 0, &out[0]); break;
+	case IV_GET_ROWS_LIST: case IV_GET_RANGED_ROWS_LIST: {
+		int *rc_ = 0, *rb = 0, *ri = 0; mpq_t *rvv = 0, *rh = 0, *rg = 0; char *se = 0, **na = 0;
+		bad_list (v, m, list, &len);
+		snprintf (what, wl, "mpq_QSget_%srows_list(p,%d,{%d,%d},..) with %d rows", id == IV_GET_ROWS_LIST ? "" : "ranged_", len, list[0], len > 1 ? list[1] : 0, m);
+		if (id == IV_GET_ROWS_LIST) rv = mpq_QSget_rows_list (p, len, list, &rc_, &rb, &ri, &rvv, &rh, &se, &na);
+		else rv = mpq_QSget_ranged_rows_list (p, len, list, &rc_, &rb, &ri, &rvv, &rh, &se, &rg, &na);
+		if (rc_) mpq_QSfree (rc_); if (rb) mpq_QSfree (rb); if (ri) mpq_QSfree (ri); if (se) mpq_QSfree (se);
+		mpq_EGlpNumFreeArray (rvv); mpq_EGlpNumFreeArray (rh); mpq_EGlpNumFreeArray (rg); free_strs (na, len);
+		break;
+	}
+	case IV_BINV_ROW: snprintf (what, wl, "mpq_QSget_binv_row(p,%d,..) with %d rows", r, m); rv = mpq_QSget_binv_row (p, r, out); break;
+	case IV_TABLEAU_ROW: snprintf (what, wl, "mpq_QSget_tableau_row(p,%d,..) with %d rows", r, m); rv = mpq_QSget_tableau_row (p, r, out); break;
+	case IV_PIVOTIN_ROW: bad_list (v, m, list, &len); snprintf (what, wl, "mpq_QSopt_pivotin_row(p,%d,{%d,%d}) with %d rows", len, list[0], len > 1 ? list[1] : 0, m); rv = mpq_QSopt_pivotin_row (p, len, list); break;
+	case IV_DELETE_COL: if (v == 3 && m == 0) { *skip = 1; break; } snprintf (what, wl, "mpq_QSdelete_col(p,%d) with %d columns, %d rows", j, n, m); rv = mpq_QSdelete_col (p, j); break;
+	case IV_DELETE_COLS: bad_list (v, n, list, &len); snprintf (what, wl, "mpq_QSdelete_cols(p,%d,{%d,%d}) with %d columns", len, list[0], len > 1 ? list[1] : 0, n); rv = mpq_QSdelete_cols (p, len, list); break;
+	case IV_CHANGE_OBJ: if (v == 3 && m == 0) { *skip = 1; break; } snprintf (what, wl, "mpq_QSchange_objcoef(p,%d,1) with %d columns, %d rows", j, n, m); rv = mpq_QSchange_objcoef (p, j, a); break;
+	case IV_CHANGE_BOUND_IDX: if (v == 3 && m == 0) { *skip = 1; break; } snprintf (what, wl, "mpq_QSchange_bound(p,%d,'U',1) with %d columns, %d rows", j, n, m); rv = mpq_QSchange_bound (p, j, 'U', a); break;
+	case IV_CHANGE_BOUNDS_IDX: { char lu[2] = { 'U', 'L' }; bad_list (v, n, list, &len); snprintf (what, wl, "mpq_QSchange_bounds(p,%d,{%d,%d},..) with %d columns", len, list[0], len > 1 ? list[1] : 0, n); rv = mpq_QSchange_bounds (p, len, list, lu, val); break; }
+	case IV_GET_BOUND_IDX: if (v == 3 && m == 0) { *skip = 1; break; } snprintf (what, wl, "mpq_QSget_bound(p,%d,'L',&v) with %d columns, %d rows", j, n, m); rv = mpq_QSget_bound (p, j, 'L', &out[0]); break;
+	case IV_GET_BOUNDS_LIST: bad_list (v, n, list, &len); snprintf (what, wl, "mpq_QSget_bounds_list(p,%d,{%d,%d},..) with %d columns", len, list[0], len > 1 ? list[1] : 0, n); rv = mpq_QSget_bounds_list (p, len, list, out, out2); break;
+	case IV_GET_OBJ_LIST: bad_list (v, n, list, &len); snprintf (what, wl, "mpq_QSget_obj_list(p,%d,{%d,%d},..) with %d columns", len, list[0], len > 1 ? list[1] : 0, n); rv = mpq_QSget_obj_list (p, len, list, out); break;
+	case IV_GET_COLUMNS_LIST: {
+		int *cc = 0, *cb = 0, *ci = 0; mpq_t *cv = 0, *ob = 0, *lo = 0, *up = 0; char **na = 0;
+		bad_list (v, n, list, &len);
+		snprintf (what, wl, "mpq_QSget_columns_list(p,%d,{%d,%d},..) with %d columns", len, list[0], len > 1 ? list[1] : 0, n);
+		rv = mpq_QSget_columns_list (p, len, list, &cc, &cb, &ci, &cv, &ob, &lo, &up, &na);
+		if (cc) mpq_QSfree (cc); if (cb) mpq_QSfree (cb); if (ci) mpq_QSfree (ci);
+		mpq_EGlpNumFreeArray (cv); mpq_EGlpNumFreeArray (ob); mpq_EGlpNumFreeArray (lo); mpq_EGlpNumFreeArray (up); free_strs (na, len);
+		break;
+	}
+	case IV_CHANGE_COEF_COL: if (!m || (v == 3 && m == 0)) { *skip = 1; break; } snprintf (what, wl, "mpq_QSchange_coef(p,0,%d,1) with %d columns, %d rows", j, n, m); rv = mpq_QSchange_coef (p, 0, j, a); break;
+	case IV_GET_COEF_COL: if (!m) { *skip = 1; break; } snprintf (what, wl, "mpq_QSget_coef(p,0,%d,&v) with %d columns, %d rows", j, n, m); rv = mpq_QSget_coef (p, 0, j, &out[0]); break;
+	case IV_ADD_ROW_BADCOL: case IV_ADD_RANGED_ROW_BADCOL: {
+		if (v == 3 && m == 0) { *skip = 1; break; }
+		k = 0; if (n) ind[k++] = 0; ind[k++] = j;
+		snprintf (what, wl, "mpq_QSadd_%srow(p,%d,{..,%d},..) with %d columns, %d rows", id == IV_ADD_ROW_BADCOL ? "" : "ranged_", k, j, n, m);
+		if (id == IV_ADD_ROW_BADCOL) rv = mpq_QSadd_row (p, k, ind, val, &a, 'L', "badrow");
+		else rv = mpq_QSadd_ranged_row (p, k, ind, val, &a, 'R', &a, "badrow");
+		break;
+	}
+	case IV_ADD_ROWS_BADCOL: {
+		int cnt[2] = { 1, 1 }, beg[2] = { 0, 1 }; char ss[2] = { 'L', 'G' }; const char *names[2] = { "badr1", "badr2" };
+		int bad = (v % 3 == 0) ? -1 : (v % 3 == 1) ? n : INT_MAX;
+		if (!n) { cnt[0] = 0; beg[1] = 0; ind[0] = bad; } else if (v / 3 == 0) { ind[0] = bad; ind[1] = 0; } else { ind[0] = 0; ind[1] = bad; }
+		snprintf (what, wl, "mpq_QSadd_rows(p,2,..{%d,%d}..) with %d columns", ind[0], ind[1], n);
+		rv = mpq_QSadd_rows (p, 2, cnt, beg, ind, val, val, ss, names);
+		break;
+	}
+	case IV_ADD_COL_BADROW: {
+		k = 0; if (m) ind[k++] = 0; ind[k++] = r;
+		snprintf (what, wl, "mpq_QSadd_col(p,%d,{..,%d},..) with %d rows", k, r, m);
+		rv = mpq_QSadd_col (p, k, ind, val, a, b, c, "badcol");
+		break;
+	}
+	case IV_ADD_COLS_BADROW: {
+		int cnt[2] = { 1, 1 }, beg[2] = { 0, 1 }; const char *names[2] = { "badc1", "badc2" };
+		int bad = (v % 3 == 0) ? -1 : (v % 3 == 1) ? m : INT_MAX;
+		mpq_t lo2[2], up2[2]; for (int i = 0; i < 2; i++) { mpq_init (lo2[i]); mpq_init (up2[i]); mpq_set_si (up2[i], 5, 1); }
+		if (!m) { cnt[0] = 0; beg[1] = 0; ind[0] = bad; } else if (v / 3 == 0) { ind[0] = bad; ind[1] = 0; } else { ind[0] = 0; ind[1] = bad; }
+		snprintf (what, wl, "mpq_QSadd_cols(p,2,..{%d,%d}..) with %d rows", ind[0], ind[1], m);
+		rv = mpq_QSadd_cols (p, 2, cnt, beg, ind, val, val, lo2, up2, names);
+		for (int i = 0; i < 2; i++) { mpq_clear (lo2[i]); mpq_clear (up2[i]); }
+		break;
+	}
+	case IV_PIVOTIN_COL: bad_list (v, n, list, &len); snprintf (what, wl, "mpq_QSopt_pivotin_col(p,%d,{%d,%d}) with %d columns", len, list[0], len > 1 ? list[1] : 0, n); rv = mpq_QSopt_pivotin_col (p, len, list); break;
+	case IV_NAMES: {
+		const char *cn0 = n ? M->cname[0] : NULL, *rn0 = m ? M->rname[0] : NULL;
+		const char *l2[2];
+		int idx = 0;
+		switch (v) {
+		case 0: snprintf (what, wl, "mpq_QSdelete_named_row(p,\"nosuch\")"); rv = mpq_QSdelete_named_row (p, "nosuch"); break;
+		case 1: if (!rn0) { *skip = 1; break; } l2[0] = rn0; l2[1] = "nosuch"; snprintf (what, wl, "mpq_QSdelete_named_rows_list(p,2,{\"%s\",\"nosuch\"})", rn0); rv = mpq_QSdelete_named_rows_list (p, 2, l2); break;
+		case 2: snprintf (what, wl, "mpq_QSdelete_named_column(p,\"nosuch\")"); rv = mpq_QSdelete_named_column (p, "nosuch"); break;
+		case 3: if (!cn0) { *skip = 1; break; } l2[0] = cn0; l2[1] = "nosuch"; snprintf (what, wl, "mpq_QSdelete_named_columns_list(p,2,{\"%s\",\"nosuch\"})", cn0); rv = mpq_QSdelete_named_columns_list (p, 2, l2); break;
+		case 4: snprintf (what, wl, "mpq_QSget_named_x(p,\"nosuch\",&v)"); rv = mpq_QSget_named_x (p, "nosuch", &out[0]); break;
+		case 5: snprintf (what, wl, "mpq_QSget_named_rc(p,\"nosuch\",&v)"); rv = mpq_QSget_named_rc (p, "nosuch", &out[0]); break;
+		case 6: snprintf (what, wl, "mpq_QSget_named_pi(p,\"nosuch\",&v)"); rv = mpq_QSget_named_pi (p, "nosuch", &out[0]); break;
+		case 7: snprintf (what, wl, "mpq_QSget_named_slack(p,\"nosuch\",&v)"); rv = mpq_QSget_named_slack (p, "nosuch", &out[0]); break;
+		case 8: snprintf (what, wl, "mpq_QSget_row_index(p,\"nosuch\",&i)"); idx = 0; rv = mpq_QSget_row_index (p, "nosuch", &idx); *lookup = 1; if (!rv && idx == -1) rv = -1; break;
+		case 9: snprintf (what, wl, "mpq_QSget_column_index(p,\"nosuch\",&i)"); idx = 0; rv = mpq_QSget_column_index (p, "nosuch", &idx); *lookup = 1; if (!rv && idx == -1) rv = -1; break;
+		case 10: if (!cn0) { *skip = 1; break; } snprintf (what, wl, "mpq_QSnew_col(p,..,\"%s\") duplicate name", cn0); rv = mpq_QSnew_col (p, a, b, c, cn0); break;
+		case 11: if (!cn0) { *skip = 1; break; } k = 0; if (m) ind[k++] = 0; snprintf (what, wl, "mpq_QSadd_col(p,..,\"%s\") duplicate name", cn0); rv = mpq_QSadd_col (p, k, ind, val, a, b, c, cn0); break;
+		case 12: if (!rn0) { *skip = 1; break; } snprintf (what, wl, "mpq_QSnew_row(p,1,'L',\"%s\") duplicate name", rn0); rv = mpq_QSnew_row (p, a, 'L', rn0); break;
+		case 13: if (!rn0) { *skip = 1; break; } k = 0; if (n) ind[k++] = 0; snprintf (what, wl, "mpq_QSadd_row(p,..,\"%s\") duplicate name", rn0); rv = mpq_QSadd_row (p, k, ind, val, &a, 'L', rn0); break;
+		case 14: { int cnt[2] = { 0, 0 }, beg[2] = { 0, 0 }; char ss[2] = { 'L', 'G' }; l2[0] = "twin"; l2[1] = "twin"; snprintf (what, wl, "mpq_QSadd_rows(p,2,..,{\"twin\",\"twin\"}) duplicate within call"); rv = mpq_QSadd_rows (p, 2, cnt, beg, ind, val, val, ss, l2); break; }
+		case 15: { if (!rn0) { *skip = 1; break; } int cnt[2] = { 0, 0 }, beg[2] = { 0, 0 }; char ss[2] = { 'L', 'G' }; l2[0] = "fresh1"; l2[1] = rn0; snprintf (what, wl, "mpq_QSadd_rows(p,2,..,{\"fresh1\",\"%s\"}) second name exists", rn0); rv = mpq_QSadd_rows (p, 2, cnt, beg, ind, val, val, ss, l2); break; }
+		case 16: { if (!cn0) { *skip = 1; break; } int cnt[2] = { 0, 0 }, beg[2] = { 0, 0 }; l2[0] = "fresh2"; l2[1] = cn0; snprintf (what, wl, "mpq_QSadd_cols(p,2,..,{\"fresh2\",\"%s\"}) second name exists", cn0); rv = mpq_QSadd_cols (p, 2, cnt, beg, ind, val, val, out, out2, l2); break; }
+		case 17: snprintf (what, wl, "mpq_QSdelete_named_row(p,NULL)"); rv = mpq_QSdelete_named_row (p, NULL); break;
+		case 18: snprintf (what, wl, "mpq_QSdelete_named_column(p,NULL)"); rv = mpq_QSdelete_named_column (p, NULL); break;
+		case 19: snprintf (what, wl, "mpq_QSget_named_x(p,NULL,&v)"); rv = mpq_QSget_named_x (p, NULL, &out[0]); break;
+		case 20: snprintf (what, wl, "mpq_QSget_row_index(p,NULL,&i)"); idx = 0; rv = mpq_QSget_row_index (p, NULL, &idx); *lookup = 1; if (!rv && idx == -1) rv = -1; break;
+		default: { int cnt[2] = { 0, 0 }, beg[2] = { 0, 0 }; l2[0] = "twinc"; l2[1] = "twinc"; snprintf (what, wl, "mpq_QSadd_cols(p,2,..,{\"twinc\",\"twinc\"}) duplicate within call"); rv = mpq_QSadd_cols (p, 2, cnt, beg, ind, val, val, out, out2, l2); break; }
+		}
+		break;
+	}
+	case IV_SELECTORS: {
+		switch (v) {
+		case 0: if (!m) { *skip = 1; break; } snprintf (what, wl, "mpq_QSchange_sense(p,0,'X')"); rv = mpq_QSchange_sense (p, 0, 'X'); break;
+		case 1: if (m < 2) { *skip = 1; break; } { char ss[2] = { 'G', 'X' }; list[0] = 0; list[1] = m - 1; snprintf (what, wl, "mpq_QSchange_senses(p,2,{0,%d},{'G','X'})", m - 1); rv = mpq_QSchange_senses (p, 2, list, ss); } break;
+		case 2: snprintf (what, wl, "mpq_QSnew_row(p,1,'X',\"selrow\")"); rv = mpq_QSnew_row (p, a, 'X', "selrow"); break;
+		case 3: k = 0; if (n) ind[k++] = 0; snprintf (what, wl, "mpq_QSadd_row(p,..,'Q',\"selrow\")"); rv = mpq_QSadd_row (p, k, ind, val, &a, 'Q', "selrow"); break;
+		case 4: if (!n) { *skip = 1; break; } snprintf (what, wl, "mpq_QSchange_bound(p,0,'X',1)"); rv = mpq_QSchange_bound (p, 0, 'X', a); break;
+		case 5: if (n < 2) { *skip = 1; break; } { char lu[2] = { 'U', 'X' }; list[0] = 0; list[1] = n - 1; snprintf (what, wl, "mpq_QSchange_bounds(p,2,{0,%d},{'U','X'},..)", n - 1); rv = mpq_QSchange_bounds (p, 2, list, lu, val); } break;
+		case 6: if (!n) { *skip = 1; break; } snprintf (what, wl, "mpq_QSget_bound(p,0,'X',&v)"); rv = mpq_QSget_bound (p, 0, 'X', &out[0]); break;
+		case 7: snprintf (what, wl, "mpq_QSchange_objsense(p,7)"); rv = mpq_QSchange_objsense (p, 7); break;
+		case 8: snprintf (what, wl, "mpq_QSchange_objsense(p,0)"); rv = mpq_QSchange_objsense (p, 0); break;
+		case 9: { int nonR = -1; for (int i = 0; i < m; i++) if (M->sense[i] != 'R') nonR = i; if (nonR < 0) { *skip = 1; break; } snprintf (what, wl, "mpq_QSchange_range(p,%d,1) on a non-range row", nonR); rv = mpq_QSchange_range (p, nonR, a); break; }
+		case 10: { int cnt[1] = { 0 }, beg[1] = { 0 }; char ss[1] = { 'Z' }; const char *nm1[1] = { "selrows" }; snprintf (what, wl, "mpq_QSadd_rows(p,1,..,{'Z'},..)"); rv = mpq_QSadd_rows (p, 1, cnt, beg, ind, val, val, ss, nm1); break; }
+		default: { int cnt[1] = { 0 }, beg[1] = { 0 }; char ss[1] = { 'Z' }; const char *nm1[1] = { "selrrows" }; snprintf (what, wl, "mpq_QSadd_ranged_rows(p,1,..,{'Z'},..)"); rv = mpq_QSadd_ranged_rows (p, 1, cnt, beg, ind, val, val, ss, val, nm1); break; }
+		}
+		break;
+	}
+	case IV_PARAMS: {
+		int iv = 0;
+		switch (v) {
+		case 0: snprintf (what, wl, "mpq_QSset_param(p,99,1)"); rv = mpq_QSset_param (p, 99, 1); break;
+		case 1: snprintf (what, wl, "mpq_QSset_param(p,-1,1)"); rv = mpq_QSset_param (p, -1, 1); break;
+		case 2: snprintf (what, wl, "mpq_QSset_param(p,QS_PARAM_PRIMAL_PRICING,99)"); rv = mpq_QSset_param (p, QS_PARAM_PRIMAL_PRICING, 99); break;
+		case 3: snprintf (what, wl, "mpq_QSset_param(p,QS_PARAM_PRIMAL_PRICING,QS_PRICE_DSTEEP)"); rv = mpq_QSset_param (p, QS_PARAM_PRIMAL_PRICING, QS_PRICE_DSTEEP); break;
+		case 4: snprintf (what, wl, "mpq_QSset_param(p,QS_PARAM_DUAL_PRICING,QS_PRICE_PSTEEP)"); rv = mpq_QSset_param (p, QS_PARAM_DUAL_PRICING, QS_PRICE_PSTEEP); break;
+		case 5: snprintf (what, wl, "mpq_QSset_param(p,QS_PARAM_SIMPLEX_DISPLAY,7)"); rv = mpq_QSset_param (p, QS_PARAM_SIMPLEX_DISPLAY, 7); break;
+		case 6: snprintf (what, wl, "mpq_QSset_param(p,QS_PARAM_SIMPLEX_DISPLAY,-1)"); rv = mpq_QSset_param (p, QS_PARAM_SIMPLEX_DISPLAY, -1); break;
+		case 7: snprintf (what, wl, "mpq_QSset_param(p,QS_PARAM_SIMPLEX_SCALING,2)"); rv = mpq_QSset_param (p, QS_PARAM_SIMPLEX_SCALING, 2); break;
+		case 8: snprintf (what, wl, "mpq_QSset_param(p,QS_PARAM_SIMPLEX_MAX_ITERATIONS,0)"); rv = mpq_QSset_param (p, QS_PARAM_SIMPLEX_MAX_ITERATIONS, 0); break;
+		case 9: snprintf (what, wl, "mpq_QSset_param(p,QS_PARAM_SIMPLEX_MAX_ITERATIONS,-5)"); rv = mpq_QSset_param (p, QS_PARAM_SIMPLEX_MAX_ITERATIONS, -5); break;
+		case 10: snprintf (what, wl, "mpq_QSget_param(p,99,&v)"); rv = mpq_QSget_param (p, 99, &iv); break;
+		case 11: snprintf (what, wl, "mpq_QSset_param_EGlpNum(p,99,1)"); rv = mpq_QSset_param_EGlpNum (p, 99, a); break;
+		default: snprintf (what, wl, "mpq_QSget_param_EGlpNum(p,99,&v)"); rv = mpq_QSget_param_EGlpNum (p, 99, &out[0]); break;
+		}
+		break;
+	}
+	case IV_BASIS: {
+		QSbasis B; memset (&B, 0, sizeof B);
+		char *cs = malloc ((size_t) n + 3), *rs = malloc ((size_t) m + 3);
+		for (int q = 0; q < n + 2; q++) cs[q] = QS_COL_BSTAT_LOWER;
+		for (int q = 0; q < m + 2; q++) rs[q] = QS_ROW_BSTAT_BASIC;
+		B.nstruct = n; B.nrows = m; B.cstat = cs; B.rstat = rs;
+		switch (v) {
+		case 0: B.nstruct = n + 1; snprintf (what, wl, "mpq_QSload_basis(p,B) with B->nstruct=%d, problem has %d", n + 1, n); rv = mpq_QSload_basis (p, &B); break;
+		case 1: B.nrows = m + 1; snprintf (what, wl, "mpq_QSload_basis(p,B) with B->nrows=%d, problem has %d", m + 1, m); rv = mpq_QSload_basis (p, &B); break;
+		case 2: if (!n) { *skip = 1; break; } B.nstruct = n - 1; snprintf (what, wl, "mpq_QSload_basis(p,B) with B->nstruct=%d, problem has %d", n - 1, n); rv = mpq_QSload_basis (p, &B); break;
+		case 3: if (!m) { *skip = 1; break; } for (int q = 0; q < m; q++) rs[q] = QS_ROW_BSTAT_LOWER; snprintf (what, wl, "mpq_QSload_basis(p,B) with no basic variable at all (%d rows)", m); rv = mpq_QSload_basis (p, &B); break;
+		case 4: if (!n) { *skip = 1; break; } cs[0] = QS_COL_BSTAT_BASIC; snprintf (what, wl, "mpq_QSload_basis(p,B) with %d basic variables for %d rows", m + 1, m); rv = mpq_QSload_basis (p, &B); break;
+		case 5: if (!n) { *skip = 1; break; } cs[0] = '7'; snprintf (what, wl, "mpq_QSload_basis(p,B) with column status byte '7'"); rv = mpq_QSload_basis (p, &B); break;
+		case 6: if (!m) { *skip = 1; break; } rs[m - 1] = 'x'; snprintf (what, wl, "mpq_QSload_basis(p,B) with row status byte 'x'"); rv = mpq_QSload_basis (p, &B); break;
+		case 7: if (!m) { *skip = 1; break; } for (int q = 0; q < m; q++) rs[q] = QS_ROW_BSTAT_LOWER; snprintf (what, wl, "mpq_QSload_basis_array(p,cstat,rstat) with no basic variable at all (%d rows)", m); rv = mpq_QSload_basis_array (p, cs, rs); break;
+		case 8: if (!n) { *skip = 1; break; } cs[0] = QS_COL_BSTAT_BASIC; snprintf (what, wl, "mpq_QSload_basis_array(p,cstat,rstat) with %d basic variables for %d rows", m + 1, m); rv = mpq_QSload_basis_array (p, cs, rs); break;
+		case 9: if (!n) { *skip = 1; break; } cs[n - 1] = '9'; snprintf (what, wl, "mpq_QSload_basis_array(p,cstat,rstat) with column status byte '9'"); rv = mpq_QSload_basis_array (p, cs, rs); break;
+		case 10: if (!n) { *skip = 1; break; } snprintf (what, wl, "mpq_QSload_basis_array(p,NULL,rstat) with %d columns", n); rv = mpq_QSload_basis_array (p, NULL, rs); break;
+		case 11: B.nstruct = n + 1; snprintf (what, wl, "mpq_QSwrite_basis(p,B,\"h.bas\") with B->nstruct=%d, problem has %d", n + 1, n); rv = mpq_QSwrite_basis (p, &B, "h.bas"); break;
+		case 12: if (!m) { *skip = 1; break; } rs[0] = 'q'; snprintf (what, wl, "mpq_QSwrite_basis(p,B,\"h.bas\") with row status byte 'q'"); rv = mpq_QSwrite_basis (p, &B, "h.bas"); break;
+		default: if (!m) { *skip = 1; break; } for (int q = 0; q < m; q++) rs[q] = QS_ROW_BSTAT_UPPER; snprintf (what, wl, "mpq_QSload_basis_and_row_norms_array(p,cstat,rstat,norms) with no basic variable"); rv = mpq_QSload_basis_and_row_norms_array (p, cs, rs, out); break;
+		}
+		free (cs); free (rs);
+		break;
+	}
+	case IV_FILES: {
+		switch (v) {
+		case 0: snprintf (what, wl, "mpq_QSread_and_load_basis(p,\"/nonexistent/x.bas\")"); rv = mpq_QSread_and_load_basis (p, "/nonexistent/x.bas"); break;
+		case 1: { snprintf (what, wl, "mpq_QSread_basis(p,\"/nonexistent/x.bas\")"); QSbasis *B = mpq_QSread_basis (p, "/nonexistent/x.bas"); rv = B ? 0 : 1; if (B) mpq_QSfree_basis (B); break; }
+		case 2: { snprintf (what, wl, "mpq_QSread_prob(\"/nonexistent/x.lp\",\"LP\")"); mpq_QSprob q = mpq_QSread_prob ("/nonexistent/x.lp", "LP"); rv = q ? 0 : 1; if (q) mpq_QSfree_prob (q); break; }
+		default: snprintf (what, wl, "mpq_QSwrite_prob(p,\"/nonexistent/dir/x.lp\",\"LP\")"); rv = mpq_QSwrite_prob (p, "/nonexistent/dir/x.lp", "LP"); break;
+		}
+		break;
+	}
+	}
+	for (int i = 0; i < 8; i++) mpq_clear (val[i]);
+	mpq_clear (a); mpq_clear (b); mpq_clear (c);
+	mpq_arr_free (out, n + m + 4); mpq_arr_free (out2, n + m + 4);
+	return rv;
+}
+
+typedef struct { int id, var; } InvCall;
+static InvCall invcalls[600]; static int ninv;
+static int inv_prefix_depth;
+static void inv_init (void)
+{
+	build_alphabets ();
+	ninv = 0;
+	for (int id = 0; id < IV__COUNT; id++) for (int v = 0; v < iv_nvar (id); v++) { invcalls[ninv].id = id; invcalls[ninv++].var = v; }
+	inv_prefix_depth = (int) opt_int ("depth", 1);
+	o_reduced = (int) opt_int ("reduced", 0);
+	alpha = o_reduced ? alpha_red : alpha_full; nalpha = o_reduced ? n_red : n_full;
+}
+static long inv_count (void) { long c = (long) NSTART * ninv; for (int i = 0; i < inv_prefix_depth; i++) c *= (nalpha + 1); return c; }
+static void inv_run (long item)
+{
+	long r = item;
+	InvCall ic = invcalls[r % ninv]; r /= ninv;
+	int start = (int) (r % NSTART); r /= NSTART;
+	int seq[8], plen = 0;
+	for (int i = 0; i < inv_prefix_depth; i++) { seq[i] = (int) (r % (nalpha + 1)); r /= (nalpha + 1); }
+	/* digit nalpha = "no op"; canonical form: no-ops only at the end of the prefix */
+	for (int i = 0; i < inv_prefix_depth; i++) { if (seq[i] == nalpha) { for (int k = i + 1; k < inv_prefix_depth; k++) if (seq[k] != nalpha) { STAT ("skipped_noncanonical_prefix"); return; } break; } plen++; }
+	size_t mem0 = 0; char capbuf[400]; capbuf[0] = 0;
+	HState S; memset (&S, 0, sizeof S);
+	sb_init (&S.desc); sb_reserve (&S.desc, 4096);
+	SBuf before, after; sb_init (&before); sb_init (&after); sb_reserve (&before, 8192); sb_reserve (&after, 8192);
+	qsx_log_reset ();
+	cap_begin ();
+	if (mem_tracking ()) mem0 = mem_now ();
+	qsx_start ();
+	S.M = make_start (start); S.edited_since_solve = 1;
+	sb_printf (&S.desc, "start=%s", start_name[start]);
+	S.p = qsx_build (S.M, start == 3 ? ROUTE_ROWS : ROUTE_LOAD, 0);
+	int stop = !S.p;
+	char why[700], what[300];
+	for (int i = 0; i < plen && !stop; i++) {
+		apply_op (&S, alpha[seq[i]]);
+		if (S.inapplicable || S.failed_valid) { STAT ("prefix_inapplicable"); stop = 1; }
+	}
+	if (!stop && qsx_conform (S.p, S.M, 1, why, sizeof why)) { STAT ("prefix_violation_skipped"); stop = 1; }
+	if (!stop) {
+		observe_state (&S, &before);
+		long logs0 = g_log_count;
+		int skip = 0, lookup = 0;
+		int rv = do_invalid (&S, ic.id, ic.var, &skip, &lookup, what, sizeof what);
+		if (skip) { STAT ("invalid_variant_not_applicable"); }
+		else {
+			STAT ("invalid_calls");
+			STAT ("api_transitions");
+			stat_dyn ("outcome_", rv ? "rejected" : "ACCEPTED");
+			sb_printf (&S.desc, " ; INVALID %s", what);
+			if (rv == 0) {
+				char sig[96]; snprintf (sig, sizeof sig, "accepted:%s#%d", ivname[ic.id], ic.var);
+				viol ("C07", sig, "invalid call returned success: %s [history: %s]", what, S.desc.s);
+			} else if (g_log_count == logs0 && !lookup) {
+				STAT ("rejected_without_message");
+			}
+			observe_state (&S, &after);
+			if (strcmp (before.s, after.s)) {
+				char sig[96]; snprintf (sig, sizeof sig, "mutated:%s#%d", ivname[ic.id], ic.var);
+				/* first difference */
+				size_t d = 0; while (before.s[d] && before.s[d] == after.s[d]) d++;
+				size_t s0 = d > 60 ? d - 60 : 0;
+				viol ("C07", sig, "rejected call changed what is observable: before \"...%.140s\" after \"...%.140s\": %s [history: %s]", before.s + s0, after.s + s0, what, S.desc.s);
+			} else if (rv) {
+				/* still usable: a solve must give the model's answer */
+				if (S.M->n > 0) {
+					Truth *T = ref_solve (S.M);
+					Cfg c; cfg_default (&c);
+					SolveObs *o = obs_new (S.M->n, S.M->m);
+					qsx_solve (S.p, &c, NULL, o);
+					if (ref_wellformed (S.M) && T->status != TRUTH_UNKNOWN) {
+						int want = T->status == TRUTH_OPTIMAL ? QS_LP_OPTIMAL : T->status == TRUTH_INFEASIBLE ? QS_LP_INFEASIBLE : QS_LP_UNBOUNDED;
+						if (o->rval || o->status != want || (want == QS_LP_OPTIMAL && !mpq_equal (o->objval, T->val))) {
+							char sig[96]; snprintf (sig, sizeof sig, "unusable-after:%s#%d", ivname[ic.id], ic.var);
+							viol ("C07", sig, "after the rejected call a solve returns rval=%d status=%s, the problem is %s: %s [history: %s]", o->rval, status_name (o->status), truth_name (T->status), what, S.desc.s);
+						}
+					}
+					obs_transcript (o);
+					obs_free (o); truth_free (T);
+				}
+			}
+			tr_int (rv); tr_str (after.s);
+			if (sample_wanted ()) sample ("%s => rv=%d", S.desc.s, rv);
+			if (g_verbose) vlog ("history: %s\nrv=%d\nbefore: %s\nafter:  %s\n", S.desc.s, rv, before.s, after.s);
+		}
+	}
+	if (S.last) obs_free (S.last);
+	if (S.p) mpq_QSfree_prob (S.p);
+	ref_free (S.M);
+	unlink ("h.bas"); unlink ("h.lp"); unlink ("h.mps");
+	qsx_stop ();
+	long capn = cap_end (capbuf, sizeof capbuf);
+	if (capn && !stop) viol ("C20", "invalid-call-writes-stdio", "%ld bytes reached stdout/stderr with a log handler installed (\"%.120s\") [history: %s]", capn, capbuf, S.desc.s);
+	if (mem_tracking () && !stop) {
+		size_t mem1 = mem_now ();
+		STAT ("mem_balance_checked");
+		if (mem1 != mem0) viol ("C18", "invalid-call-leak", "%ld bytes remain allocated after a rejected call, freeing everything and QSexactClear() [history: %s]", (long) mem1 - (long) mem0, S.desc.s);
+	}
+	sb_free (&S.desc); sb_free (&before); sb_free (&after);
+}
+Family fam_inv = { "inv", "invalid-call alphabet from every lifecycle state (C07; C18/C20 riders); --opt depth=N prefix length --opt reduced=0|1", inv_init, inv_count, inv_run, NULL, 60 };
